@@ -2,7 +2,7 @@
    range.  Only the property theorems, each closed by [exact]; proofs live in
    Midi/MidiProofs.v, the model in Midi/MidiModel.v, the Spec in Midi/MidiSpec.v. *)
 From Coq Require Import List ZArith QArith.
-From RtoscV Require Import Midi.MidiModel Midi.MidiSpec Midi.MidiProofs Midi.MidiFloat Midi.MidiProto Midi.MidiNrt.
+From RtoscV Require Import Midi.MidiModel Midi.MidiSpec Midi.MidiProofs Midi.MidiFloat Midi.MidiProto Midi.MidiNrt Midi.MidiSilent.
 Import ListNotations.
 Local Open Scope Z_scope.
 
@@ -131,3 +131,14 @@ Proof. exact unmap_stops. Qed.
 Theorem C20_bind_installs : forall r ns r', rt_deliver r (RBind ns) = Some r' ->
   exists s', rstorage r' = Some s' /\ mapping s' = mapping ns /\ callbacks s' = callbacks ns.
 Proof. exact bind_installs. Qed.
+
+(* History level: in a quiescent history (same side condition and bound as
+   C20_quiescent_learn_partial) a parameter message is produced only by a
+   controller value whose controller was assigned before - a midi-use-CC for
+   it reached the non-realtime side while an address was queued
+   (assigned_after collects exactly those) - and by no other event. *)
+Theorem C20_unassigned_silent_history_partial : forall ports evs tr fin U,
+  (length U <= 32)%nat -> incl (ccids evs) U -> Forall (fun x => 0 <= x) (ccids evs) ->
+  run ports world0 evs = (tr, fin) -> quiescent evs tr = true ->
+  silent_run ports world0 [] evs.
+Proof. exact quiescent_silent. Qed.
